@@ -282,6 +282,43 @@ def nested_cli(ctx, res):
                                    "case": case, "observed": ["%d %s" % (v, " ".join(k)) for v, k in lines]})
 
 
+def nested_conderr_cli(ctx, res):
+    """C03 through the binary: a stage condition that cannot be evaluated (the scheduler cancels the run) inside a NESTED pipeline, in the
+    enclosing pipeline while a nested one is running, with tasks in flight: the run returns in bounded time."""
+    import clilib
+    rng = vlib.rng_for(ctx.seed, "C03nested")
+    bad = "/nonexistent/verif-no-such-command"
+    tasks = {"ok": {"command": ["true"]}, "slow": {"command": ["sleep 0.4"]}, "slower": {"command": ["sleep 1"]}}
+    shapes = []
+    for where in ("inner", "outer", "inner-first", "both"):
+        for inflight in ("none", "slow", "slower"):
+            inner = [{"task": "ok", "name": "x"}, {"task": "ok", "name": "y", "depends_on": ["x"]}]
+            outer = [{"pipeline": "pin", "name": "inc"}, {"task": "ok", "name": "after", "depends_on": ["inc"]}]
+            if inflight != "none":
+                outer.insert(0, {"task": inflight, "name": "busy"})
+                inner.append({"task": inflight, "name": "ibusy"})
+            if where in ("inner", "both"):
+                inner[1]["condition"] = bad
+            if where == "inner-first":
+                inner[0]["condition"] = bad
+            if where in ("outer", "both"):
+                outer.append({"task": "ok", "name": "guarded", "condition": bad})
+            shapes.append((where, inflight, {"tasks": tasks, "pipelines": {"pin": inner, "pout": outer}}))
+    jobs = [{"id": k, "files": {"cfg.json": clilib.jcfg(doc)}, "argv": ["-c", "cfg.json", "--raw", "run", "pipeline", "pout"], "timeout": 20, "where": w, "inflight": f}
+            for k, (w, f, doc) in enumerate(shapes)]
+    out = clilib.run_cli(ctx.workdir + "/nestedcond", jobs, timeout=20)
+    for j in jobs:
+        r = out[j["id"]]
+        res.evaluations += 1
+        res.count("nested-conderr-cli")
+        res.nontrivial_keys.add("nc-%s-%s" % (j["where"], j["inflight"]))
+        case = {"kind": "nested-conderr-cli", "where": j["where"], "in_flight": j["inflight"], "config": json.loads(j["files"]["cfg.json"])}
+        if r["timeout"]:
+            res.violations.append({"class": None, "what": "a stage condition that cannot be evaluated (nested pipelines): the run did not return within 20 s", "case": case, "observed": (r.get("err") or "")[-500:]})
+        elif clilib.crashed(r):
+            res.violations.append({"class": None, "what": "a stage condition that cannot be evaluated (nested pipelines): the process crashed", "case": case, "observed": (r.get("err") or "")[-800:]})
+
+
 def run(ctx, prop):
     res = vlib.Result()
     cases = ctx.replay_cases if ctx.replay_cases else gen_cases(ctx, prop)
@@ -379,4 +416,6 @@ def run(ctx, prop):
                    for c, r in runs[:1] + runs[len(runs) // 2: len(runs) // 2 + 1]]
     if prop == "C01" and not ctx.replay_cases:
         nested_cli(ctx, res)
+    if prop == "C03" and not ctx.replay_cases:
+        nested_conderr_cli(ctx, res)
     return res
